@@ -1,13 +1,464 @@
-// Package c15 is the harness for property C15 (runs the real kapacitor code, prints op lines).
+// Package c15 is the harness for property C15: it drives the REAL storage.IndexedStore (services/storage)
+// over a real Bolt file — directly over storage.Bolt and over a fault-injecting storage.TxOperator wrapper
+// whose Update is the real storage.DoUpdate — with generated and exhaustive operation histories, and
+// prints per case the op lines together with what the implementation answered.
+//
+// Line protocol (strings %XX-escaped with kit.Esc; an object is `id;grp;tag;data`):
+//
+//	cfg <prefix> <name;u|n;id|grp|tag>,...            index configuration of the case (first line)
+//	create|put|replace <id> <grp> <tag> <data> <fault>  => ok | err:exists | err:missing | err:io | err:other | panic
+//	delete <id> <fault>                                  => (same)
+//	rebuild <fault>                                      => (same)
+//	get <id>                                             => ok <obj> | err:missing | err:other
+//	list <index> <pattern> <offset> <limit> <rev>        => ok <obj,obj,…|-> | err:other
+//	dump                                                 => <key=o;obj | key=r;raw>,… | -   (raw bucket content)
+//	reopen                                               close the Bolt file, open it again, new IndexedStore
+//
+// <fault>: `-` none, `w<n>` the n-th (0-based) Put/Delete of the transaction returns an error, `c` Commit fails.
 package c15
 
 import (
+	"encoding/json"
+	"errors"
 	"fmt"
 	"os"
+	"path/filepath"
+	"strconv"
+	"strings"
+
+	"github.com/influxdata/kapacitor/services/storage"
+	bolt "go.etcd.io/bbolt"
+
+	"verifharness/kit"
 )
 
-// Run is replaced by the property's harness.
+// ---- the stored object: encoded with the real versioned JSON codec of services/storage/version.go ----
+
+type obj struct {
+	ID   string `json:"id"`
+	Grp  string `json:"grp"`
+	Tag  string `json:"tag"`
+	Data string `json:"data"`
+}
+
+func (o *obj) ObjectID() string { return o.ID }
+func (o *obj) MarshalBinary() ([]byte, error) {
+	return storage.VersionJSONEncode(1, o)
+}
+func (o *obj) UnmarshalBinary(data []byte) error {
+	return storage.VersionJSONDecode(data, func(version int, dec *json.Decoder) error {
+		if version != 1 {
+			return errors.New("bad version")
+		}
+		return dec.Decode(o)
+	})
+}
+
+func renderObj(o *obj) string {
+	return kit.Esc(o.ID) + ";" + kit.Esc(o.Grp) + ";" + kit.Esc(o.Tag) + ";" + kit.Esc(o.Data)
+}
+
+// ---- fault injection: a storage.TxOperator over the real Bolt store; Update/View are the REAL DoUpdate/DoView ----
+
+var errInjected = errors.New("injected fault")
+
+type faultStore struct {
+	inner  *storage.Bolt
+	failAt int // -1 none, -2 commit, n>=0: n-th write of the transaction
+	writes int
+}
+
+func (f *faultStore) BeginReadOnlyTx() (storage.ReadOnlyTx, error) { return f.inner.BeginReadOnlyTx() }
+func (f *faultStore) BeginTx() (storage.Tx, error) {
+	tx, err := f.inner.BeginTx()
+	if err != nil {
+		return nil, err
+	}
+	f.writes = 0
+	return &faultTx{Tx: tx, f: f}, nil
+}
+func (f *faultStore) View(fn func(storage.ReadOnlyTx) error) error { return storage.DoView(f, fn) }
+func (f *faultStore) Update(fn func(storage.Tx) error) error       { return storage.DoUpdate(f, fn) }
+func (f *faultStore) Store(buckets ...[]byte) storage.Interface     { panic("not used") }
+
+type faultTx struct {
+	storage.Tx
+	f *faultStore
+}
+
+func (t *faultTx) write() error {
+	n := t.f.writes
+	t.f.writes++
+	if n == t.f.failAt {
+		return errInjected
+	}
+	return nil
+}
+func (t *faultTx) Put(key string, value []byte) error {
+	if err := t.write(); err != nil {
+		return err
+	}
+	return t.Tx.Put(key, value)
+}
+func (t *faultTx) Delete(key string) error {
+	if err := t.write(); err != nil {
+		return err
+	}
+	return t.Tx.Delete(key)
+}
+func (t *faultTx) Commit() error {
+	if t.f.failAt == -2 {
+		return errInjected
+	}
+	return t.Tx.Commit()
+}
+
+// ---- one Bolt file per harness process, one bucket per case ----
+
+type env struct {
+	path   string
+	db     *bolt.DB
+	bucket int
+}
+
+func (e *env) open() error {
+	db, err := bolt.Open(e.path, 0600, &bolt.Options{NoSync: true, NoFreelistSync: true})
+	if err != nil {
+		return err
+	}
+	e.db = db
+	return nil
+}
+
+func newEnv() (*env, error) {
+	dir := os.Getenv("VERIF_SCRATCH")
+	if dir == "" {
+		dir = os.TempDir()
+	}
+	d, err := os.MkdirTemp(dir, "c15-bolt-")
+	if err != nil {
+		return nil, err
+	}
+	e := &env{path: filepath.Join(d, "store.db")}
+	return e, e.open()
+}
+
+func (e *env) close() {
+	if e.db != nil {
+		e.db.Close()
+	}
+	os.RemoveAll(filepath.Dir(e.path))
+}
+
+type idxSpec struct {
+	name   string
+	unique bool
+	sel    string
+}
+
+type session struct {
+	e       *env
+	bucket  []byte
+	prefix  string
+	idx     []idxSpec
+	faulty  bool
+	fs      *faultStore
+	raw     *storage.Bolt
+	store   *storage.IndexedStore
+	started bool
+}
+
+func (s *session) build() error {
+	s.raw = storage.NewBolt(s.e.db, s.bucket)
+	var under storage.Interface = s.raw
+	if s.faulty {
+		s.fs = &faultStore{inner: s.raw, failAt: -1}
+		under = s.fs
+	}
+	c := storage.DefaultIndexedStoreConfig(s.prefix, func() storage.BinaryObject { return new(obj) })
+	c.Indexes = nil
+	for _, ix := range s.idx {
+		ix := ix
+		c.Indexes = append(c.Indexes, storage.Index{
+			Name:   ix.name,
+			Unique: ix.unique,
+			ValueFunc: func(o storage.BinaryObject) (string, error) {
+				x := o.(*obj)
+				switch ix.sel {
+				case "grp":
+					return x.Grp, nil
+				case "tag":
+					return x.Tag, nil
+				}
+				return x.ID, nil
+			},
+		})
+	}
+	st, err := storage.NewIndexedStore(under, c)
+	if err != nil {
+		return err
+	}
+	s.store = st
+	return nil
+}
+
+func errTok(err error) string {
+	switch {
+	case err == nil:
+		return "ok"
+	case err == storage.ErrObjectExists:
+		return "err:exists"
+	case err == storage.ErrNoObjectExists:
+		return "err:missing"
+	case errors.Is(err, errInjected):
+		return "err:io"
+	}
+	return "err:other"
+}
+
+func list(xs []string) string {
+	if len(xs) == 0 {
+		return "-"
+	}
+	return strings.Join(xs, ",")
+}
+
+func un(s string) string { v, _ := kit.Unesc(s); return v }
+
+// execCase runs the op lines of one case in a fresh bucket and returns the lines with observations.
+func execCase(e *env, ops []string) (out []string) {
+	e.bucket++
+	s := &session{e: e, bucket: []byte(fmt.Sprintf("case%d", e.bucket))}
+	for _, l := range ops {
+		t := strings.Fields(stripObs(l))
+		if len(t) > 1 && isMutation(t[0]) && t[len(t)-1] != "-" {
+			s.faulty = true
+		}
+	}
+	guard := func(line string, f func() string) {
+		defer func() {
+			if r := recover(); r != nil {
+				out = append(out, line+" => panic")
+			}
+		}()
+		obs := f()
+		if obs == "" {
+			out = append(out, line)
+		} else {
+			out = append(out, line+" => "+obs)
+		}
+	}
+	setFault := func(tok string) {
+		if s.fs == nil {
+			return
+		}
+		switch {
+		case tok == "-":
+			s.fs.failAt = -1
+		case tok == "c":
+			s.fs.failAt = -2
+		case strings.HasPrefix(tok, "w"):
+			n, _ := strconv.Atoi(tok[1:])
+			s.fs.failAt = n
+		}
+	}
+	clearFault := func() {
+		if s.fs != nil {
+			s.fs.failAt = -1
+		}
+	}
+	for _, raw := range ops {
+		line := stripObs(raw)
+		t := strings.Fields(line)
+		if len(t) == 0 {
+			continue
+		}
+		if t[0] != "cfg" && !s.started {
+			// default configuration
+			s.prefix = "p"
+			s.idx = []idxSpec{{"id", true, "id"}, {"grp", false, "grp"}}
+			if err := s.build(); err != nil {
+				out = append(out, line+" => panic")
+				return out
+			}
+			s.started = true
+		}
+		switch t[0] {
+		case "cfg":
+			s.prefix = un(t[1])
+			s.idx = nil
+			for _, sp := range strings.Split(t[2], ",") {
+				p := strings.Split(sp, ";")
+				if len(p) != 3 {
+					continue
+				}
+				s.idx = append(s.idx, idxSpec{un(p[0]), p[1] == "u", p[2]})
+			}
+			if err := s.build(); err != nil {
+				out = append(out, line+" => err:other")
+				return out
+			}
+			s.started = true
+			out = append(out, line)
+		case "create", "put", "replace":
+			if len(t) != 6 {
+				continue
+			}
+			o := &obj{ID: un(t[1]), Grp: un(t[2]), Tag: un(t[3]), Data: un(t[4])}
+			guard(line, func() string {
+				setFault(t[5])
+				defer clearFault()
+				switch t[0] {
+				case "create":
+					return errTok(s.store.Create(o))
+				case "put":
+					return errTok(s.store.Put(o))
+				}
+				return errTok(s.store.Replace(o))
+			})
+		case "delete":
+			guard(line, func() string {
+				setFault(t[2])
+				defer clearFault()
+				return errTok(s.store.Delete(un(t[1])))
+			})
+		case "rebuild":
+			guard(line, func() string {
+				setFault(t[1])
+				defer clearFault()
+				return errTok(s.store.Rebuild())
+			})
+		case "get":
+			guard(line, func() string {
+				o, err := s.store.Get(un(t[1]))
+				if err != nil {
+					return errTok(err)
+				}
+				return "ok " + renderObj(o.(*obj))
+			})
+		case "list":
+			guard(line, func() string {
+				off, _ := strconv.Atoi(t[3])
+				lim, _ := strconv.Atoi(t[4])
+				var objs []storage.BinaryObject
+				var err error
+				if t[5] == "1" {
+					objs, err = s.store.ReverseList(un(t[1]), un(t[2]), off, lim)
+				} else {
+					objs, err = s.store.List(un(t[1]), un(t[2]), off, lim)
+				}
+				if err != nil {
+					return errTok(err)
+				}
+				var r []string
+				for _, o := range objs {
+					r = append(r, renderObj(o.(*obj)))
+				}
+				return "ok " + list(r)
+			})
+		case "dump":
+			guard(line, func() string {
+				var r []string
+				err := s.raw.View(func(tx storage.ReadOnlyTx) error {
+					kvs, err := tx.List("")
+					if err != nil {
+						return err
+					}
+					for _, kv := range kvs {
+						o := new(obj)
+						if o.UnmarshalBinary(kv.Value) == nil {
+							r = append(r, kit.Esc(kv.Key)+"=o;"+renderObj(o))
+						} else {
+							r = append(r, kit.Esc(kv.Key)+"=r;"+kit.Esc(string(kv.Value)))
+						}
+					}
+					return nil
+				})
+				if err != nil {
+					return "err:other"
+				}
+				return list(r)
+			})
+		case "reopen":
+			guard(line, func() string {
+				if err := e.db.Close(); err != nil {
+					return "err:other"
+				}
+				if err := e.open(); err != nil {
+					panic(err)
+				}
+				if err := s.build(); err != nil {
+					return "err:other"
+				}
+				return ""
+			})
+		}
+	}
+	return out
+}
+
+func isMutation(op string) bool {
+	return op == "create" || op == "put" || op == "replace" || op == "delete" || op == "rebuild"
+}
+
+func stripObs(line string) string {
+	if i := strings.Index(line, " => "); i >= 0 {
+		return line[:i]
+	}
+	return line
+}
+
+func emit(out *kit.Out, id string, lines []string) {
+	out.Line("case", id)
+	for _, l := range lines {
+		out.Line(l)
+	}
+	out.Line("end")
+}
+
+// Run: `vh-c15 -seed S -n N [-tier thorough]` generates; `vh-c15 -ops file` re-executes the cases of a file.
 func Run(args []string) int {
-	fmt.Fprintln(os.Stderr, "c15: harness not implemented yet")
-	return 3
+	f := kit.ParseFlags(args)
+	out := kit.NewOut()
+	defer out.Flush()
+	e, err := newEnv()
+	if err != nil {
+		fmt.Fprintln(os.Stderr, err)
+		return 2
+	}
+	defer e.close()
+	if f.Ops != "" {
+		lines, err := kit.ReadLines(f.Ops)
+		if err != nil {
+			fmt.Fprintln(os.Stderr, err)
+			return 2
+		}
+		var cur []string
+		id := ""
+		for _, l := range lines {
+			t := strings.Fields(l)
+			switch {
+			case len(t) == 2 && t[0] == "case":
+				id, cur = t[1], nil
+			case len(t) == 1 && t[0] == "end":
+				emit(out, id, execCase(e, cur))
+			default:
+				cur = append(cur, l)
+			}
+		}
+		return 0
+	}
+	r := kit.NewRand(f.Seed)
+	for i := 0; i < f.N; i++ {
+		emit(out, fmt.Sprintf("g%d", i), execCase(e, genCase(r.Fork(), i)))
+	}
+	n := 0
+	if f.Tier == "thorough" {
+		exhaustive(out, e, 3, &n)
+		faultSweep(out, e, r.Fork(), 400, &n)
+	} else {
+		exhaustive(out, e, 2, &n)
+		faultSweep(out, e, r.Fork(), 60, &n)
+	}
+	return 0
 }
